@@ -858,6 +858,7 @@ struct St {
 }
 #[derive(Clone, Debug)]
 enum Act {
+    Reband(usize, usize),
     Set(usize, i64),
     FillBand(isize, i64),
     Fill(i64),
@@ -899,6 +900,15 @@ impl Sut for St {
         }
         a.push(Act::Fill(0));
         a.push(Act::Neg);
+        // resize( n, m1', m2' ) to the same order and the same total width with the split moved by one: the statement does not say where
+        // the entries go (they keep their compact column), so the model is re-read through the index operator afterwards; what it does say
+        // is that determinant, product and solve of the matrix that is THERE agree with its dense twin (round 16: factors kept across it)
+        if self.c.m1 >= 1 && self.c.m2 + 1 < self.c.n {
+            a.push(Act::Reband(self.c.m1 - 1, self.c.m2 + 1));
+        }
+        if self.c.m2 >= 1 && self.c.m1 + 1 < self.c.n {
+            a.push(Act::Reband(self.c.m1 + 1, self.c.m2 - 1));
+        }
         if small {
             a.push(Act::AddC(1));
             a.push(Act::SubC(2));
@@ -912,6 +922,12 @@ impl Sut for St {
     fn step(&mut self, a: &Act, hits: &mut Vec<&'static str>) -> Result<(), String> {
         let sl = self.sl();
         match a.clone() {
+            Act::Reband(m1, m2) => {
+                self.b.resize(self.c.n, m1, m2);
+                self.c = Cfg { n: self.c.n, m1, m2 };
+                self.vals = slots(self.c).iter().map(|&(i, j)| self.b[(i, j)]).collect();
+                hits.push("band split moved by resize");
+            }
             Act::Set(k, v) => {
                 let (i, j) = sl[k];
                 self.b[(i, j)] = r(v);
